@@ -130,7 +130,7 @@ def corr_objects_x(check, tier):
     per_class = 4 if tier == 'quick' else 10
     prots = {False: XmlDocument(), True: XmlDocument(validator='soft')}
     for ui in range(n_univ):
-        desc = X.gen_universe(rng, n_classes=rng.randint(2, 6), namespaces=('urn:t', 'urn:u') if ui % 2 else ('urn:t',))
+        desc = X.gen_universe(rng, n_classes=rng.randint(2, 6), namespaces=('urn:t', 'urn:u', 'urn:v') if ui % 3 else ('urn:t',))
         classes = X.build_classes(desc)
         imports = IMPORTS_X + 'Definition UU : universe := %s.\n' % X.g_universe(desc, classes)
         enc_cases, dec_cases = [], []
@@ -379,7 +379,7 @@ def corr_calls(check, tier):
     from lxml import etree
     from spyne.server.wsgi import WsgiApplication
     rng = check.rng
-    n_worlds = 8 if tier == 'quick' else 40
+    n_worlds = 6 if tier == 'quick' else 40
     per_method = 2 if tier == 'quick' else 5
     for wi in range(n_worlds):
         w = World(rng)
